@@ -5,6 +5,8 @@ import EoNVerif.Proofs.GillespieOut2
 import EoNVerif.Props.C01
 import EoNVerif.Props.C12
 import EoNVerif.Props.C13
+import EoNVerif.Props.C02b
+import EoNVerif.Props.C04b
 /-!
 C04 / C05 / C09 — target statements for the Gillespie_SIR / Gillespie_SIS model: the executable predicates
 `Pred.wellFormed`, `Pred.initialOK`, `Pred.transmissionsValid` hold of every output of the model.
